@@ -241,7 +241,9 @@ class World:
                 if i == j:
                     continue
                 dmin = dist[j].min()
-                sel = np.where(dist[j] < dmin + 1e-6)[0]
+                # equidistant periodic images share the spring; the window is wide enough that positions carried by a
+                # 6-decimal structure file (ABACUS STRU) select the same images as the exact ones
+                sel = np.where(dist[j] < dmin + 1e-3)[0]
                 phi = np.zeros((3, 3))
                 for s in sel:
                     e = vec[j, s] / dist[j, s]
